@@ -21,6 +21,7 @@ RULE = ("E2: breadth-first search over histories of a real Bec2File (state copie
         "one configuration component, last, decoding to the latest configuration, all others untouched in order; derived comments = reference "
         "function of the latest configuration; derived auth blocks as stated; never two blocks of one kind.")
 ASSUMPTIONS = [
+    "the caller keeps using the same configuration dictionaries for all operations of a history (as the appnotes do); the reference always uses pristine copies",
     "for derivation on a file that already has blocks only 'requested block present, update block as stated when both exist, one block per kind' is checked",
     "RequiresBusAddress follows the truthiness of value 0x0620/0x20 (present with 01 / absent in the alphabet)",
     "at most 3 firmware components per file (bounds the state space; the operations do not depend on the count)",
@@ -64,6 +65,8 @@ class St:
         self.auth = {}            # tag -> descriptor
         self.counter = 0
         self.prov = "fresh"       # were the current objects built by the caller or by the reader (after WriteRead)?
+        # the caller's configuration dictionaries: the SAME objects are handed to every operation of a history
+        self.cfgs = {k: dict(v) for k, v in CFG.items()}
 
 
 def canon(st):
@@ -72,8 +75,10 @@ def canon(st):
                   for c in b.bf3file.components)
     auth = tuple((t, type(a).__name__, getattr(a, "key_selector", None), getattr(a, "version", None),
                   getattr(a, "config_security_code", None)) for t, a in b.auth_blocks.items())
+    # the caller's dictionaries are part of the state (an operation that modifies them changes what later operations see)
+    cfgstate = tuple(tuple(sorted((repr(k), v) for k, v in st.cfgs[n].items())) == tuple(sorted((repr(k), v) for k, v in CFG[n].items())) for n in "ABCD")
     # which component objects were produced by the reader (they may differ in ways the observable fields do not show)
-    return (comps, tuple(sorted(b.bf3file.comments.items())), auth, st.prov,
+    return (comps, tuple(sorted(b.bf3file.comments.items())), auth, st.prov, cfgstate,
             tuple(len(c.blob) for c in b.bf3file.components))
 
 
@@ -140,7 +145,7 @@ def step(st, op):
     what = "after %r" % (op,)
     if kind == "setcfg":
         cfg = CFG[op[1]]
-        bec.bf3file.set_config(dict(cfg))
+        bec.bf3file.set_config(st.cfgs[op[1]])
         st.comps = [m for m in st.comps if m[0] != "cfg"] + [("cfg", op[1])]
         check_components(st, o, what)
         real = bec.bf3file.components
@@ -148,7 +153,7 @@ def step(st, op):
             o.viol("components|config-not-last", "%s: the configuration component is not last" % what)
     elif kind == "comments":
         cfg = CFG[op[1]]
-        bec.bf3file.derive_comments_from_config(dict(cfg))
+        bec.bf3file.derive_comments_from_config(st.cfgs[op[1]])
         for k, v in ref_comments(cfg).items():
             if v is None:
                 st.comments.pop(k, None)
@@ -157,7 +162,7 @@ def step(st, op):
     elif kind == "auth":
         cfg = CFG[op[1]]
         had_none = not bec.auth_blocks
-        bec.derive_auth_blocks_from_config(dict(cfg), cust_key_support=(op[2] == "cust"))
+        bec.derive_auth_blocks_from_config(st.cfgs[op[1]], cust_key_support=(op[2] == "cust"))
         blocks = list(bec.auth_blocks.values())
         tags = [b.tag for b in blocks]
         if len(set(tags)) != len(tags) or list(bec.auth_blocks.keys()) != tags:
